@@ -142,6 +142,11 @@ class Ctx(object):
         os.environ["TMPDIR"] = self.tmp
         tempfile.tempdir = self.tmp
         self._n = 0
+        self.counts = {}
+
+    def count(self, name, n=1):
+        """Measured facts about what a check actually compared (reported under classes as '#name')."""
+        self.counts[name] = self.counts.get(name, 0) + n
 
     def path(self, name):
         self._n += 1
@@ -292,6 +297,9 @@ class Recorder(object):
 
     def result(self):
         samples = list(self.first_samples) + [c for _, c in self.low_samples]
+        for k, v in self.ctx.counts.items():
+            self.classes["#" + k] = self.classes.get("#" + k, 0) + v
+        self.ctx.counts = {}
         return {
             "leg": self.leg,
             "shard": self.ctx.shard,
